@@ -1352,8 +1352,18 @@ fn grid_programs() -> Vec<(&'static str, String, Files)> {
 }
 
 const GRID_BUDGETS: [usize; 3] = [1, 2, 10];
-const GRID_DEFINES: [&[&str]; 11] = [
+const GRID_DEFINES: [&[&str]; 21] = [
     &[],
+    &["-dval="],
+    &["-dval=-"],
+    &["-d="],
+    &["-dval=0x"],
+    &["-dval=--1"],
+    &["-dval=1_"],
+    &["-dunused=1", "-dval=2"],
+    &["-dval=2", "-dunused=1"],
+    &["-dval=1", "-dval=2"],
+    &["-dval=2", "-dval"],
     &["-dval=5"],
     &["-dval"],
     &["--define=val=0x10"],
